@@ -298,7 +298,11 @@ namespace options
             }
         }
 
-        s << "usage: " << app_name_;
+        // the synopsis is assembled in a private stream, because the line wrapping looks at the
+        // write position of the stream
+        std::stringstream synopsis;
+
+        synopsis << "usage: " << app_name_;
 
         std::stringstream usage;
 
@@ -338,10 +342,10 @@ namespace options
         {
             out = out.substr(1);
 
-            nitro::io::terminal::format_padded(s, out, 8 + app_name_.size(), 80);
+            nitro::io::terminal::format_padded(synopsis, out, 8 + app_name_.size(), 80);
         }
 
-        s << std::endl << std::endl;
+        s << synopsis.str() << std::endl << std::endl;
 
         if (!about_.empty())
         {
